@@ -62,7 +62,7 @@ def cases(chk):
     cs = []
     for f in json.load(open(os.path.join(tlc.SPEC_DIR, "rewiring_nets.json"))):      # the MC family
         cs.append({"edges": [tuple(e) for e in f["g0"]], "jd": [tuple(j) for j in f["jd"]], "tops": f["tops"], "ncalls": 3})
-    for i in range(400 if thorough else 90):
+    for i in range(2500 if thorough else 90):
         n = rng.choice([4, 6, 9, 14, 25, 40])
         sizes = rng.choice([[2], [2, 3], [2, 3, 4], [3], [2, 2, 3]])
         names = ["2-clique", "2-clique-blue", "3-clique"] if sizes == [2, 2, 3] else None   # two differently named 2-clique topologies
